@@ -63,6 +63,7 @@ MUST_COUNT = ["contract_evals_hist_rescale", "contract_evals_hist_scale_computed
               "rejections_observed"]
 MIN_NONTRIVIAL = {"quick": 5000, "thorough": 150000}
 NCASES = {"quick": 12000, "thorough": 400000}
+NBIG = {"quick": 60, "thorough": 3000}
 LEVEL_TEXT = ("Seeded random exploration; every call of the real histogram.scale/add/"
               "set_nevents and graph.scale is judged by a contract with exact rational "
               "arithmetic (4 ulp per cell, forward-error bound for the recomputed integral), "
@@ -128,10 +129,15 @@ def nest(flat, nbins):
     return out
 
 
-def g_hist(rng, dim=None, ckind=None):
+def g_hist(rng, dim=None, ckind=None, big=False):
     dim = dim or rng.choice([1, 1, 1, 2, 2, 3])
     maxb = {1: 12, 2: 5, 3: 3}[dim]
-    axes = [g_axis(rng, rng.randint(1, maxb)) for _ in range(dim)]
+    if big:
+        lo, hi = {1: (65, 2100), 2: (9, 50), 3: (5, 13)}[dim]
+        axes = [g_axis(rng, rng.choice([lo, hi, rng.randint(lo, hi), rng.randint(lo, hi)]))
+                for _ in range(dim)]
+    else:
+        axes = [g_axis(rng, rng.randint(1, maxb)) for _ in range(dim)]
     nbins = [len(a) - 1 for a in axes]
     ncell = 1
     for n in nbins:
@@ -201,6 +207,23 @@ def cases(tier, seed):
                 yield {"k": "add_objects", "edges": edges, "w": w, "explicit": explicit,
                        "a": [rng.randint(-5, 9) for _ in range(ncell)],
                        "b": [rng.randint(-5, 9) for _ in range(ncell)]}
+    # histograms of hundreds to thousands of cells
+    for i in range(NBIG[tier]):
+        rng = gen.rng_for(seed, "C12big", i)
+        k = rng.choice(["hscale", "hscale", "nevents", "conv"])
+        h = g_hist(rng, ckind=rng.choice(["posints", "posfloats", "ints", "floats"]), big=True)
+        if k == "hscale":
+            yield {"k": k, "hist": h, "s": [g_target(rng), g_target(rng)],
+                   "route": rng.choice(ROUTES), "pre": rng.random() < 0.5,
+                   "mate": g_graph(rng, "num"), "big": 1}
+        elif k == "nevents":
+            yield {"k": k, "hist": h, "n": rng.choice([1, 100, 2.5, 10 ** 6]),
+                   "incl": rng.random() < 0.5, "big": 1}
+        else:
+            h = g_hist(rng, dim=rng.choice([1, 2]), big=True)
+            yield {"k": k, "hist": h, "coord": rng.choice(["left", "right", "middle"]),
+                   "mv": None, "gscale": rng.choice([None, True, 5]),
+                   "fn_str": False, "rs": rng.randint(0, 10 ** 9), "big": 1}
     for i in range(n):
         rng = gen.rng_for(seed, "C12", i)
         k = rng.choice(["hscale", "hscale", "hscale", "gscale", "gscale", "gscale", "add", "add",
